@@ -7,7 +7,11 @@ package acl
 // Every case builds a small world (container with a random basic ACL mask and owner,
 // stored eACL table or none, inner ring / container node key sets, an object with
 // attributes that is or is not in the local storage, optional bearer token of several
-// validity classes) and a really signed request of one of the object operations.  The
+// validity classes) and a really signed request of one of the object operations.  In a
+// third of the worlds the group memberships overlap (user keys listed in the Inner Ring
+// and/or among the container nodes, the Inner Ring key among the container nodes, the
+// requester's own key in either list): the requester's role is then derived by the
+// reference from the world facts, not assigned by the generator.  The
 // request goes through the real pipeline pieces in the order the object server applies
 // them: acl/v2.Service.VerifyBearerTokenMessage -> <Op>RequestToInfo (requester
 // credentials, role classification, bearer applicability) -> Checker.CheckBasicACL ->
@@ -283,6 +287,8 @@ type vf28Case struct {
 	owner     user.ID
 	stored    *eacl.Table
 	role      int
+	altRole   int  // second system role of a requester that is both inner ring and container node, else -1
+	tombPut   bool // a tombstone is being put (deletion unless replicated by a container node)
 	reqKey    []byte
 	reqAcc    user.ID
 	op        acl.Op // operation the basic ACL / eACL are asked about
@@ -319,6 +325,64 @@ func vf28Reference(c *vf28Case) (bool, string) {
 		return false, fmt.Sprintf("eacl-%s-record", src) + strconv.Itoa(min(i, 9))
 	}
 	return true, ""
+}
+
+// vf28RoleOf derives the requester's role from the world facts.  NeoFS API: the USER rules
+// apply "if sender is the owner of the container", SYSTEM "if sender is a storage node
+// within the container or an inner ring node", OTHERS "if sender is neither" - so being
+// the owner decides first and others is what remains.  Which of the two system roles a
+// key that is both an Inner Ring and a container node key gets is not defined by the
+// statement: the second one is returned as alternative (-1 if none).
+func vf28RoleOf(isOwner, isIR, isNode bool) (int, int) {
+	switch {
+	case isOwner:
+		return vf28RoleOwner, -1
+	case isIR && isNode:
+		return vf28RoleIR, vf28RoleContainer
+	case isIR:
+		return vf28RoleIR, -1
+	case isNode:
+		return vf28RoleContainer, -1
+	}
+	return vf28RoleOthers, -1
+}
+
+// vf28OpFor: putting a tombstone is a deletion unless a container node replicates an
+// already accepted one (TTL 1), which is a put.
+func vf28OpFor(op acl.Op, tombPut bool, role int, ttl uint32) acl.Op {
+	if tombPut {
+		if role == vf28RoleContainer && ttl == 1 {
+			return acl.OpObjectPut
+		}
+		return acl.OpObjectDelete
+	}
+	return op
+}
+
+// vf28ReferenceAny is vf28Reference for a requester whose role the statement leaves open
+// between two system roles: forbidden only if forbidden under both.
+func vf28ReferenceAny(c *vf28Case) (bool, string, bool) {
+	allow, why := vf28Reference(c)
+	if c.altRole < 0 {
+		return allow, why, false
+	}
+	alt := *c
+	alt.role, alt.altRole = c.altRole, -1
+	alt.op = vf28OpFor(c.op, c.tombPut, alt.role, c.ttl)
+	a2, _ := vf28Reference(&alt)
+	if a2 && !allow {
+		return true, "", true
+	}
+	return allow, why, a2 != allow
+}
+
+func vf28HasKey(ks [][]byte, k []byte) bool {
+	for i := range ks {
+		if bytes.Equal(ks[i], k) {
+			return true
+		}
+	}
+	return false
 }
 
 // ---------------------------------------------------------------------------------------
@@ -483,9 +547,10 @@ var vf28OpKinds = []vf28OpKind{
 func TestVerif_C28(t *testing.T) {
 	r := verifkit.Start(t, "C28", "exploration")
 	defer r.Finish()
-	r.SetRule("case = container (random/preset/perturbed 30-bit basic ACL mask incl. sticky and final bits, owner), stored eACL table (1-4 records: action, op, role/key/account targets, 0-2 filters over object attributes, system object properties, request X-headers with all 7 matchers) or none, requester in {owner, other user, inner ring key, container node key}, op kind in {GET, HEAD, PUT, PUT-tombstone, DELETE, SEARCH, RANGE, HASH}, object owned by requester or not with random attributes, stored locally or not, bearer token absent or of class {ok, ok-any-user, ok-this-container, foreign-issuer, spoofed-issuer, other-container, other-user, expired, not-yet-valid, bad-signature}; distinct = (mask class bits for op, sticky, final, role, op kind, local, bearer class, stored/bearer table shape, code verdict, reference verdict); non-trivial = all")
+	r.SetRule("case = container (random/preset/perturbed 30-bit basic ACL mask incl. sticky and final bits, owner), stored eACL table (1-4 records: action, op, role/key/account targets, 0-2 filters over object attributes, system object properties, request X-headers with all 7 matchers) or none, requester in {owner, other user, inner ring key, container node key} whose key is in 1/3 of the worlds additionally listed in the Inner Ring and/or among the container nodes (overlapping group memberships: owner+IR, owner+node, owner+IR+node, IR+node, user key that is IR/node; role derived from the world by the reference), op kind in {GET, HEAD, PUT, PUT-tombstone, DELETE, SEARCH, RANGE, HASH}, object owned by requester or not with random attributes, stored locally or not, bearer token absent or of class {ok, ok-any-user, ok-this-container, foreign-issuer, spoofed-issuer, other-container, other-user, expired, not-yet-valid, bad-signature}; distinct = (mask class bits for op, sticky, final, role, group memberships, op kind, local, bearer class, stored/bearer table shape, code verdict, reference verdict); non-trivial = all")
 	r.Assume("the order of the checks replicates pkg/services/object/server.go handlers (C29 monitors that the handlers really call them)")
 	r.Assume("eACL does not apply to inner ring / container nodes and the sticky bit does not apply to container nodes (NeoFS definitions the statement does not spell out)")
+	r.Assume("a requester that is the container owner has the owner role whatever other lists its key is in (NeoFS API: USER rules apply 'if sender is the owner of the container', OTHERS 'if neither user nor system'); for a key that is both Inner Ring and container node the statement fixes no precedence: forbidden only if forbidden under both roles")
 	r.Assume("object-header filters see the headers the protocol defines for the operation: full header for GET/HEAD/PUT, container+object ID for RANGE/DELETE, container ID for SEARCH")
 
 	nCases := r.Pick(9000, 150000)
@@ -543,13 +608,56 @@ func TestVerif_C28(t *testing.T) {
 			reqK, c.role = others[rng.IntN(len(others))], vf28RoleOthers
 		}
 		c.reqKey, c.reqAcc = reqK.pub, reqK.id
-		kind := vf28OpKinds[rng.IntN(len(vf28OpKinds))]
-		c.op = kind.op
-		c.isPut = kind.name == "PUT" || kind.name == "PUT-tombstone"
-		c.ttl = uint32(1 + rng.IntN(2))
-		if kind.name == "PUT-tombstone" && c.role == vf28RoleContainer && c.ttl == 1 {
-			c.op = acl.OpObjectPut // replication of an already accepted tombstone is a put
+
+		// group membership lists of this world; in a third of the worlds they overlap.
+		// Own random stream: the rest of the case does not depend on the overlap draw.
+		ovr := r.Rand("overlap", ci)
+		irKeys := [][]byte{irKey.pub}
+		nodeKeys := map[string]bool{string(nodeCur.pub): true, string(nodePrev.pub): true}
+		if ovr.IntN(3) == 0 {
+			for _, u := range usersPool {
+				if ovr.IntN(3) == 0 {
+					irKeys = append(irKeys, u.pub)
+				}
+				if ovr.IntN(3) == 0 {
+					nodeKeys[string(u.pub)] = true
+				}
+			}
+			if ovr.IntN(2) == 0 {
+				irKeys = append(irKeys, reqK.pub)
+			}
+			if ovr.IntN(2) == 0 {
+				nodeKeys[string(reqK.pub)] = true
+			}
+			if ovr.IntN(4) == 0 {
+				irKeys = append(irKeys, nodeCur.pub)
+			}
+			if ovr.IntN(4) == 0 {
+				nodeKeys[string(irKey.pub)] = true
+			}
+			ovr.Shuffle(len(irKeys), func(i, j int) { irKeys[i], irKeys[j] = irKeys[j], irKeys[i] })
 		}
+		isOwner, isIR, isNode := reqK.id == c.owner, vf28HasKey(irKeys, reqK.pub), nodeKeys[string(reqK.pub)]
+		nominal := c.role
+		c.role, c.altRole = vf28RoleOf(isOwner, isIR, isNode)
+		member := ""
+		for i, in := range []bool{isOwner, isIR, isNode} {
+			if in {
+				if member != "" {
+					member += "+"
+				}
+				member += vf28RoleNames[i]
+			}
+		}
+		if member == "" {
+			member = vf28RoleNames[vf28RoleOthers]
+		}
+
+		kind := vf28OpKinds[rng.IntN(len(vf28OpKinds))]
+		c.isPut = kind.name == "PUT" || kind.name == "PUT-tombstone"
+		c.tombPut = kind.name == "PUT-tombstone"
+		c.ttl = uint32(1 + rng.IntN(2))
+		c.op = vf28OpFor(kind.op, c.tombPut, c.role, c.ttl)
 
 		// the object
 		c.objOwner = c.reqAcc
@@ -702,7 +810,8 @@ func TestVerif_C28(t *testing.T) {
 		cnr.SetBasicACL(basic)
 		w.containers = map[cid.ID]container.Container{c.cnr: cnr}
 		w.tables = map[cid.ID]*eacl.Table{c.cnr: c.stored}
-		w.nodes = map[cid.ID]map[string]bool{c.cnr: {string(nodeCur.pub): true, string(nodePrev.pub): true}}
+		w.nodes = map[cid.ID]map[string]bool{c.cnr: nodeKeys}
+		w.irKeys = irKeys
 		w.serverIn = rng.IntN(2) == 0
 
 		// the request
@@ -712,7 +821,7 @@ func TestVerif_C28(t *testing.T) {
 		hdrBin := make([]byte, mo.Header.MarshaledSize())
 		mo.Header.MarshalStable(hdrBin)
 
-		desc := map[string]any{"case": ci, "basic_acl": fmt.Sprintf("%08x", c.bits), "role": vf28RoleNames[c.role], "op": kind.name, "ttl": c.ttl,
+		desc := map[string]any{"case": ci, "basic_acl": fmt.Sprintf("%08x", c.bits), "role": vf28RoleNames[c.role], "requester_is": member, "inner_ring_keys": len(irKeys), "container_node_keys": len(nodeKeys), "op": kind.name, "ttl": c.ttl,
 			"object_owner_is_requester": c.objOwner == c.reqAcc, "object_local": local, "object_headers": fmt.Sprint(c.objHdrs), "request_headers": fmt.Sprint(c.reqHdrs),
 			"stored_table": vf28TableJSON(c.stored), "bearer": c.bearerTok, "bearer_table": vf28TableJSON(vf28BearerTable(c.bearerTok))}
 
@@ -724,14 +833,34 @@ func TestVerif_C28(t *testing.T) {
 		if panicked {
 			continue
 		}
-		allow, why := vf28Reference(c)
+		allow, why, roleDecides := vf28ReferenceAny(c)
+		if roleDecides {
+			r.Count("verdict_depends_on_which_system_role_ir_or_node", 1)
+		}
 		if !allow && kind.name == "SEARCH" {
 			// which object headers a SEARCH exposes (none / the container ID) is left open
 			alt := *c
 			alt.objHdrs = nil
-			if a, _ := vf28Reference(&alt); a {
+			if a, _, _ := vf28ReferenceAny(&alt); a {
 				allow, why = true, ""
 				r.Count("search_verdict_depends_on_container_id_header", 1)
+			}
+		}
+		if member != vf28RoleNames[nominal] {
+			r.Count("membership_"+member, 1)
+			// would the verdict differ had the requester been given another of its groups' roles?
+			for i, in := range []bool{isOwner, isIR, isNode} {
+				if !in || i == c.role || i == c.altRole {
+					continue
+				}
+				alt := *c
+				alt.role, alt.altRole = i, -1
+				alt.op = vf28OpFor(kind.op, c.tombPut, i, c.ttl)
+				if a, _ := vf28Reference(&alt); a != allow {
+					r.Count("overlap_role_precedence_decides_verdict", 1)
+					r.Seen("overlap_precedence_decisive_for", member+"|"+kind.name)
+					break
+				}
 			}
 		}
 		nib := c.bits >> (4 * vf28OpIndex(c.op)) & 0xF
@@ -739,9 +868,13 @@ func TestVerif_C28(t *testing.T) {
 		if c.bearerTok != nil {
 			bclass = c.bearerTok.Class
 		}
-		r.Distinct(fmt.Sprintf("%x|%t|%t|%d|%s|%t|%s|%s|%s|%t|%s", nib, vf28Sticky(c.bits), vf28Final(c.bits), c.role, kind.name, local, bclass, storedShape, stage, served, why))
+		r.Distinct(fmt.Sprintf("%x|%t|%t|%d|%s|%s|%t|%s|%s|%s|%t|%s", nib, vf28Sticky(c.bits), vf28Final(c.bits), c.role, member, kind.name, local, bclass, storedShape, stage, served, why))
 		r.Count("op_"+kind.name, 1)
 		r.Count("role_"+vf28RoleNames[c.role], 1)
+		roleName := vf28RoleNames[c.role]
+		if member != roleName {
+			roleName += "(is " + member + ")"
+		}
 		r.Count("bearer_"+bclass, 1)
 		if ci < 4 {
 			r.Sample(map[string]any{"case": desc, "code_served": served, "code_stage": stage, "reference_allows": allow, "reference_reason": why})
@@ -752,7 +885,7 @@ func TestVerif_C28(t *testing.T) {
 			if len(why) > 5 && why[:5] == "eacl-" {
 				whyClass = why[:len(why)-1] // drop the record index
 			}
-			key := fmt.Sprintf("served-but-forbidden|%s|%s|%s|bearer=%s|stage=%s", whyClass, kind.name, vf28RoleNames[c.role], bclass, stage)
+			key := fmt.Sprintf("served-but-forbidden|%s|%s|%s|bearer=%s|stage=%s", whyClass, kind.name, roleName, bclass, stage)
 			if stage == "served-after-eacl-header-binary" {
 				// diagnosis by counterfactual: would the table also pass if the request carried no X-headers?
 				alt := *c
@@ -786,6 +919,9 @@ func TestVerif_C28(t *testing.T) {
 	}
 	if r.SeenCount("reference_deny_reasons") < 3 {
 		r.Inconclusive("fewer than 3 kinds of denied requests observed")
+	}
+	if r.Counter("overlap_role_precedence_decides_verdict") == 0 {
+		r.Inconclusive("no request of a requester with overlapping group memberships whose verdict depends on the role precedence observed")
 	}
 	if r.Counter("served_allowed") == 0 {
 		r.Inconclusive("no served request observed")
